@@ -41,6 +41,7 @@ type G struct {
 	bigCls   int
 	nodes    map[reflect.Type][]reflect.Value
 	dynConts []reflect.Value
+	ptrConts map[reflect.Type][]reflect.Value
 	depth    int
 	n        int
 	// Labels collected for evidence (length class hit, shapes, ...).
@@ -331,6 +332,26 @@ func (g *G) Value(typ reflect.Type) reflect.Value {
 				tm = time.Unix(1, 5e6)
 			}
 			return reflect.ValueOf(&tm)
+		}
+		if et.Kind() == reflect.Slice || et.Kind() == reflect.Map {
+			// pointer to a container: nil, the same pointer as before, or a fresh one
+			k := rapid.IntRange(0, 4).Draw(g.T, g.name("ptrcont"))
+			if k == 0 {
+				return v
+			}
+			if k == 1 && g.Cfg.Share && len(g.ptrConts[typ]) > 0 {
+				g.lbl("shared-container-pointer")
+				return g.ptrConts[typ][rapid.IntRange(0, len(g.ptrConts[typ])-1).Draw(g.T, g.name("ptrcontWhich"))]
+			}
+			p := reflect.New(et)
+			p.Elem().Set(g.Value(et))
+			if g.ptrConts == nil {
+				g.ptrConts = map[reflect.Type][]reflect.Value{}
+			}
+			if p.Elem().Len() > 0 {
+				g.ptrConts[typ] = append(g.ptrConts[typ], p)
+			}
+			return p
 		}
 		if et.Kind() != reflect.Struct {
 			panic("zoo: pointer to non-struct not generated: " + typ.String())
